@@ -442,12 +442,38 @@ def r8_table_keys(m):
                     r.ob(True, "%s.%s: %s[%s]" % (cname, name, "/".join(dicts), A.text(keyexpr)))
                 else:
                     r.undet("%s.%s: key `%s` not syntactically lower-cased" % (cname, name, A.text(keyexpr)))
-                    if isinstance(keyexpr, ast.Name) and keyexpr.id in A.param_names(f.node):
+                    raw = set(A.param_names(f.node))
+                    for x in A.body_nodes(f.node):
+                        if isinstance(x, ast.Assign) and len(x.targets) == 1 and isinstance(x.targets[0], ast.Name) \
+                                and isinstance(x.value, ast.Name) and x.value.id in raw:
+                            raw.add(x.targets[0].id)
+                    if isinstance(keyexpr, ast.Name) and keyexpr.id in raw:
                         r.ob(False)
                         r.fail("%s.%s|%s" % (cname, name, A.text(keyexpr)),
                                "%s.%s uses its parameter `%s` as a symbol-table key without lower-casing it, while the sibling "
                                "methods store lower-cased keys: names that differ in case miss the table" % (cname, name, A.text(keyexpr)),
                                m.loc(f, n))
+    # comparisons of a table/module name with a parameter must use the lower-cased value as well
+    for cname in ("SymbolTables", "SymbolTable", "ModuleUse"):
+        k = m.key(cname, "fparser.two.symbol_table")
+        for name, d in sorted(m.classes[k]["own"].items()):
+            f = m.method(k, name)
+            if f is None:
+                continue
+            params = set(A.param_names(f.node))
+            for n in A.body_nodes(f.node):
+                if isinstance(n, ast.Compare) and len(n.ops) == 1 and isinstance(n.ops[0], (ast.Eq, ast.NotEq)):
+                    sides = [n.left, n.comparators[0]]
+                    for a, b in (sides, sides[::-1]):
+                        if isinstance(a, ast.Attribute) and a.attr in ("name", "_name") and isinstance(b, ast.Name) and b.id in params:
+                            r.instances += 1
+                            r.ob(False)
+                            r.fail("%s.%s|cmp|%s" % (cname, name, b.id),
+                                   "%s.%s compares a stored (lower-cased) name with its raw parameter `%s`: a name written with "
+                                   "upper-case letters is never found" % (cname, name, b.id), m.loc(f, n))
+                        elif isinstance(a, ast.Attribute) and a.attr in ("name", "_name") and isinstance(b, ast.Name):
+                            r.instances += 1
+                            r.ob(True, "%s.%s: %s" % (cname, name, A.text(n)))
     return r
 
 
